@@ -402,7 +402,7 @@ func (g *c30Gen) stmt() string {
 	case 0:
 		return "if " + g.simple() + "; then " + g.simple() + "; else " + g.simple() + "; fi"
 	case 1:
-		return "for i in 1 2 " + g.word() + "; do " + g.simple() + "; " + r.Pick([]string{":", "break", "continue", "echo $i"}) + "; done"
+		return "for i in 1 2 " + g.word() + "; do " + g.simple() + "; " + r.Pick([]string{":", "break", "continue", "echo $i", "break 3", "continue 2", "break 2"}) + "; done"
 	case 2:
 		return "n=0; while [ $n -lt 3 ]; do n=$((n+1)); " + g.simple() + "; done"
 	case 3:
@@ -421,6 +421,30 @@ func (g *c30Gen) stmt() string {
 		return "{ " + g.simple() + "; } &\nwait"
 	case 10:
 		return g.simple() + "; " + g.simple()
+	case 11, 12:
+		// loop-control counts beyond the loop depth: the leftover levels stay in the Runner and act
+		// on the next loop — state other than variables that must carry across top-level statements
+		// the same way in a whole-file run and in one Run call per statement
+		return r.Pick([]string{
+			"for i in 1 2; do break 3; done",
+			"for i in 1 2; do echo i$i; continue 3; done",
+			"while true; do break 2; done",
+			"for i in 1 2; do for k in x y; do break 4; done; done",
+			"until false; do continue 2; break; done",
+			"for ((i=0;i<3;i++)); do break 2; done",
+			"lf() { for i in 1 2; do break 5; done; }; lf",
+		})
+	case 13, 14:
+		// a loop with several statements per iteration, which leftover break/continue levels,
+		// options, traps, parameters … of earlier statements show up in
+		return r.Pick([]string{
+			"for j in a b; do echo $j; echo after-$j; done",
+			"for j in a b c; do echo $j $?; " + g.simple() + "; echo after-$j; done",
+			"n=0; while [ $n -lt 2 ]; do n=$((n+1)); echo w$n; echo after-w$n; done",
+			"for ((q=0;q<2;q++)); do echo q$q; echo after-q$q; done",
+			"for j in \"$@\"; do echo p:$j; done; echo $# $?",
+			"lg() { for j in a b; do echo $j; echo after-$j; done; }; lg",
+		})
 	default:
 		return g.simple()
 	}
